@@ -116,6 +116,9 @@ def acceptAll (c : Cfg) (s : Spec) : List Ev → Option Spec
     | none => none
     | some s' => acceptAll c s' es
 
+/-- the sequence the specification currently regards as the last delivered one. -/
+def eff (s : Spec) : Int := match s.pending with | some b => b | none => s.p
+
 /-- the acknowledged ranges of a trace, in order. -/
 def acks : List Ev → List (Int × Int)
   | [] => []
